@@ -4,10 +4,9 @@
 (* integer kinds (C16).                                                     *)
 (*                                                                         *)
 (* TLC integers are 32-bit, so numbers are DIGIT SEQUENCES (most            *)
-(* significant digit first).  Range bounds are not written down as          *)
-(* constants: they are derived by repeated doubling (2^bits), so the        *)
-(* specification states the rule, and an ASSUME cross-checks the derived    *)
-(* bounds against the familiar decimal constants.                           *)
+(* significant digit first).  Range bounds are 2^bits (- 1): the powers of   *)
+(* two are checked by repeated doubling, and an ASSUME cross-checks the     *)
+(* resulting bounds against the familiar decimal constants.                 *)
 (*                                                                         *)
 (* A literal is [neg, digits, form] with form one of                        *)
 (*   "int"        -?digits                                                  *)
@@ -61,20 +60,28 @@ Double(d) ==
        IF x >= 10 THEN AddSmall(IF r = <<>> THEN <<0>> ELSE r, 1) \o <<x - 10>>
        ELSE (IF r = <<>> THEN <<>> ELSE r) \o <<x>>
 
-(* powers of two by repeated doubling, arranged as a shallow tower (TLC evaluates deep recursion poorly) *)
+(* Powers of two.  They are written out and CHECKED by doubling (the ASSUMEs below), eight doublings at a
+   time: TLC evaluates operator arguments lazily, and a chain of 64 nested doublings exhausts the JVM stack. *)
 D1(x)  == StripZ(Double(x))
 D2(x)  == D1(D1(x))
 D4(x)  == D2(D2(x))
+D7(x)  == D1(D2(D4(x)))
 D8(x)  == D4(D4(x))
-D16(x) == D8(D8(x))
-Two7  == D1(D2(D4(<<1>>)))
-Two8  == D1(Two7)
-Two15 == D1(D2(D4(Two8)))
-Two16 == D1(Two15)
-Two31 == D1(D2(D4(D8(Two16))))
-Two32 == D1(Two31)
-Two63 == D1(D2(D4(D8(D16(Two32)))))
-Two64 == D1(Two63)
+Two7 == <<1,2,8>>
+Two8 == <<2,5,6>>
+Two15 == <<3,2,7,6,8>>
+Two16 == <<6,5,5,3,6>>
+Two24 == <<1,6,7,7,7,2,1,6>>
+Two31 == <<2,1,4,7,4,8,3,6,4,8>>
+Two32 == <<4,2,9,4,9,6,7,2,9,6>>
+Two40 == <<1,0,9,9,5,1,1,6,2,7,7,7,6>>
+Two48 == <<2,8,1,4,7,4,9,7,6,7,1,0,6,5,6>>
+Two56 == <<7,2,0,5,7,5,9,4,0,3,7,9,2,7,9,3,6>>
+Two63 == <<9,2,2,3,3,7,2,0,3,6,8,5,4,7,7,5,8,0,8>>
+Two64 == <<1,8,4,4,6,7,4,4,0,7,3,7,0,9,5,5,1,6,1,6>>
+ASSUME D7(<<1>>) = Two7 /\ D1(Two7) = Two8 /\ D7(Two8) = Two15 /\ D1(Two15) = Two16 /\ D8(Two16) = Two24
+ASSUME D7(Two24) = Two31 /\ D1(Two31) = Two32 /\ D8(Two32) = Two40 /\ D8(Two40) = Two48 /\ D8(Two48) = Two56
+ASSUME D7(Two56) = Two63 /\ D1(Two63) = Two64
 Pow2(n) == CASE n = 7 -> Two7 [] n = 8 -> Two8 [] n = 15 -> Two15 [] n = 16 -> Two16
              [] n = 31 -> Two31 [] n = 32 -> Two32 [] n = 63 -> Two63 [] n = 64 -> Two64
 
